@@ -352,6 +352,18 @@ func (st *State) havocSet(ms *ModSet) {
 	if ms.interior {
 		// stores through pointers of unknown provenance: conservatively everything of that sort
 		st.e.notes["store through a pointer of unknown provenance inside a havoc region"] = true
+		if st.e.curElemPtrs {
+			// with pointers to slice elements modelled, a store through *T may have hit an element of a []T
+			for h := range ms.heaps {
+				if strings.HasPrefix(h, "P:") && !ms.heaps["E:"+h[2:]] {
+					if st.e.heapSortFromID("E:"+h[2:]) == "" {
+						st.pendingHavoc("E:" + h[2:])
+					} else {
+						st.havocHeap("E:" + h[2:])
+					}
+				}
+			}
+		}
 	}
 }
 
@@ -1039,6 +1051,13 @@ func (e *Engine) encodeAddr(s *State, a *Addr) string {
 		if cv.T != "" || cv.Addr != nil || cv.Clo != nil {
 			s.store(obj, cv)
 		}
+		return loc
+	}
+	if a.Kind == AElem && len(a.Path) == 0 && e.eptrDone {
+		// pointer to a slice element as a term (so that it survives a trip through the heap and can be described in invariants)
+		loc := s.name("eptr", "Int", "(eptr "+a.Base+" "+a.Idx+")")
+		s.assume("(> " + loc + " 0)")
+		s.addEncoded(loc, a)
 		return loc
 	}
 	// interior pointers: opaque location remembered per path
